@@ -88,7 +88,11 @@ def execute_run(pid, P, r, binp, seed, tier, work, findings, breaks, cov):
     judge = JUDGES[r["judge"]]
     judge(pid, r, opl, gol, lel, metal, findings, breaks, cov, rec, seed)
     if tlog_path:
-        replay_session_traces(pid, tlog_path, findings, breaks, cov, rec, seed, r.get("env", {}), conn=(mode == "conn"))
+        try:
+            replay_session_traces(pid, tlog_path, findings, breaks, cov, rec, seed, r.get("env", {}), conn=(mode == "conn"))
+        except Exception as e:  # never let the replay machinery take the check down: report it as a correspondence break
+            import traceback
+            breaks.append(dict(what=f"site-level replay could not be carried out: {e!r}", detail=traceback.format_exc()[-1500:]))
 
 
 def replay(pid, P, binp, path, work, findings, cov):
@@ -372,7 +376,7 @@ def replay_session_traces(pid, tlog_path, findings, breaks, cov, rec, seed, mode
             others += 1
     rec["replay_divergences_elsewhere"] = others
     for idx, fl, ep, line, op in mine[:3]:
-        its = op.split(" ", 1)[1].split(" ; ")
+        its = op.split(" ", 1)[1].split(" ; ") if " " in op else []
         m = re.search(r"at (\d+)", line)
         k = int(m.group(1)) if m else len(its)
         breaks.append(dict(what=f"site-level replay: a controlled execution of the real code is not a run of {'Model/Conn' if conn else 'Model/Transport'} "
